@@ -26,6 +26,9 @@ THEOREMS = {
     'sizing_same': ('getSizing_same', ['C08']), 'sizing_largest': ('getSizing_largest', ['C08']),
     'sizing_smallest': ('getSizing_smallest', ['C08']), 'sizing_optimal': ('getSizing_optimal', ['C07', 'C08', 'C09']),
     'needs_pyint': ('needsPyInt', ['C19', 'C09']), 'mul_needs_pyint': ('mulNeedsPyInt', ['C19']),
+    # the exact scale-down route of a result that loses fraction bits (float route only for integers a double holds)
+    'add_exact_path': ('addExactPath', ['C03']), 'sub_exact_path': ('subExactPath', ['C03']),
+    'mul_exact_path': ('mulExactPath', ['C03']),
     # rules of objects.py
     'store_limits': ('storeLimits', ['C01', 'C02', 'C03', 'C05', 'C18']), 'resize_limits': ('resizeLimits', ['C02', 'C17']),
     'nint_of': ('nintOf', ['C02', 'C06']), 'extended_prec': ('extendedPrec', ['C18']),
@@ -135,6 +138,14 @@ def _grid_cmd(thm):
         return head + body(['for x in fmts', 'for y in fmts', 'for F in [(0 : Int), 1, 7, 31, 40, 62, 63, 64, 65]'],
                            'Gen.%s %s F' % (gen, a2), '%s x y F' % model, 's!" n_frac={F}"', cond='m && !g',
                            gs='"machine carrier"', ms='"python integers needed"') + tail
+    if thm in ('add_exact_path', 'sub_exact_path', 'mul_exact_path'):
+        # a format pair for which bits are dropped, the float route is taken, and the extreme codes give an integer beyond 2^53
+        big = ('max (x.lo * y.lo).natAbs (x.hi * y.hi).natAbs' if thm == 'mul_exact_path' else
+               '(x.lo * 2 ^ (max x.nfrac y.nfrac - x.nfrac).toNat).natAbs + (y.lo * 2 ^ (max x.nfrac y.nfrac - y.nfrac).toNat).natAbs + (y.hi * 2 ^ (max x.nfrac y.nfrac - y.nfrac).toNat).natAbs')
+        drop = 'F < x.nfrac + y.nfrac' if thm == 'mul_exact_path' else 'F < max x.nfrac y.nfrac'
+        return head + body(['for x in fmts', 'for y in fmts', 'for F in [(-1 : Int), 0, 1, 7, 31, 40, 62, 63, 64, 65]'],
+                           'Gen.%s %s F' % (gen, a2), 'decide (%s ∧ 2 ^ 53 < %s)' % (drop, big), 's!" n_frac={F}"', cond='m && !g',
+                           gs='"float route"', ms='"bits dropped and an exact result beyond 2^53"') + tail
     return ''
 
 
